@@ -460,7 +460,9 @@ func (c *UDPConn) FindAddrByChannelNumber(chNum uint16) (net.Addr, bool) {
 		return nil, false
 	}
 
-	return b.addr, true
+	// The address goes out to the application with what ReadFrom returns: it gets
+	// a copy, as a caller that changes it would otherwise rewrite the binding.
+	return cloneAddr(b.addr), true
 }
 
 func (c *UDPConn) maybeBind(bound *binding) {
